@@ -1,8 +1,9 @@
 (* QueueCheck: property monitors over observed traces and the correspondence check for C16.
    Executable, no proofs in here.
 
-   case = kind (0 Queue, 1 JoinableQueue, 2 SimpleQueue), maxsize, one script per process,
-   schedule, and what the real classes did under that schedule (harness/c16_driver.py):
+   case = kind (0 Queue, 1 JoinableQueue, 2 SimpleQueue), maxsize, one script per PAIR (main
+   thread 2q + feeder slot 2q+1), the process of each pair (own; [] = every pair its own process:
+   one main thread per process), schedule, and what the real classes did under that schedule (harness/c16_driver.py):
    events, call index of each event, results per logical thread, finished flags, final
    semaphore values, final pipe, final feeder buffers, object each unfinished thread is
    blocked on, how the run ended (0 finished, 1 deadlock, 2 stopped). *)
@@ -13,7 +14,10 @@ Open Scope Z_scope.
 
 Definition qobserved :=
   (list event * list nat * list (list Z) * list bool * list Z * list Z * list (list Z) * list Z * Z)%type.
-Definition qcase := (Z * Z * list (list qcall) * list (nat * bool) * qobserved)%type.
+Definition qcase := (Z * Z * list (list qcall) * list nat * list (nat * bool) * qobserved)%type.
+
+(* process of logical thread t (main thread 2q and feeder slot 2q+1 belong to the process of pair q) *)
+Definition proc_of (own : list nat) (t : nat) : nat := owner own (Nat.div t 2).
 
 (* ------------------------------------------------------------------ monitors (on the observed trace alone) *)
 Definition is_put (c : nat) : bool := Nat.eqb c 0 || Nat.eqb c 3 || Nat.eqb c 6.
@@ -128,27 +132,32 @@ Fixpoint odds {A} (l : list A) : list A :=
   match l with _ :: y :: r => y :: odds r | _ => [] end.
 
 (* a feeder whose thread has ended (Queue._feed returned after an exception) took with it the
-   message it had popped and that message's capacity token; what is still in its buffer stays
-   there for ever.  The accounting at a quiet end counts exactly those. *)
-Fixpoint dead_tokens (bufs : list (list Z)) (ffins : list bool) : Z :=
-  match bufs, ffins with
-  | b :: bufs', d :: ffins' => (if d then 1 + Z.of_nat (length b) else 0) + dead_tokens bufs' ffins'
-  | _, _ => 0
+   message it had popped and that message's capacity token; what is still in the buffer of its
+   process stays there for ever.  The accounting at a quiet end counts exactly those.
+   ffins = finished flags of the feeder slots (one per pair), bufs = one buffer per process. *)
+Definition ndead (own : list nat) (ffins : list bool) (p : nat) : Z :=
+  Z.of_nat (length (filter (fun q => Nat.eqb (owner own q) p && nth q ffins false) (seq 0 (length ffins)))).
+Fixpoint dead_tokens (own : list nat) (ffins : list bool) (p : nat) (bufs : list (list Z)) : Z :=
+  match bufs with
+  | b :: bufs' => (if 0 <? ndead own ffins p then ndead own ffins p + Z.of_nat (length b) else 0)
+                  + dead_tokens own ffins (S p) bufs'
+  | [] => 0
   end.
-Fixpoint live_bufs_empty (bufs : list (list Z)) (ffins : list bool) : bool :=
-  match bufs, ffins with
-  | b :: bufs', d :: ffins' => (d || match b with [] => true | _ => false end) && live_bufs_empty bufs' ffins'
-  | _, _ => true
+Fixpoint live_bufs_empty (own : list nat) (ffins : list bool) (p : nat) (bufs : list (list Z)) : bool :=
+  match bufs with
+  | b :: bufs' => ((0 <? ndead own ffins p) || match b with [] => true | _ => false end)
+                  && live_bufs_empty own ffins (S p) bufs'
+  | [] => true
   end.
 
-Definition capacity_ok (kind maxsize : Z) (fins : list bool) (vals : list Z) (pipe : list Z)
+Definition capacity_ok (kind maxsize : Z) (own : list nat) (fins : list bool) (vals : list Z) (pipe : list Z)
            (bufs : list (list Z)) (pend : list Z) : bool :=
   let s := nth 0 vals 0 in
   (0 <=? s) && (s <=? maxsize)
   && (if (kind <? 2) && forallb (fun b => b) (evens fins)
          && forallb (fun p => (p =? -1) || (9 <=? p) && negb (p =? 100)) (odds pend)
-         && live_bufs_empty bufs (odds fins)
-      then s + Z.of_nat (length pipe) + dead_tokens bufs (odds fins) =? maxsize else true).
+         && live_bufs_empty own (odds fins) 0 bufs
+      then s + Z.of_nat (length pipe) + dead_tokens own (odds fins) 0 bufs =? maxsize else true).
 
 (* the thread of some feeder has ended although its queue is still in use *)
 Definition feeder_ended (fins : list bool) : bool := existsb (fun b => b) (odds fins).
@@ -159,23 +168,24 @@ Definition net_held (s : nat) (l : list event) : Z :=
   fold_left (fun a e => let '(_, o, op, r) := e in
                         if Nat.eqb o s && (op =? 0) && (r =? 1) then a + 1
                         else if Nat.eqb o s && (op =? 1) && (r =? 0) then a - 1 else a) l 0.
-Definition holds_none (t : nat) (l : list event) : bool :=
-  forallb (fun s => net_held s l =? 0) [1%nat; 2%nat; 4%nat; (8 + 2 * Nat.div t 2)%nat].
+Definition holds_none (own : list nat) (t : nat) (l : list event) : bool :=
+  forallb (fun s => net_held s l =? 0) [1%nat; 2%nat; 4%nat; (8 + 2 * proc_of own t)%nat].
 Definition evs_of_thread (t : nat) (es : list event) : list event :=
   filter (fun e => let '(t', _, _, _) := e in Nat.eqb t' t) es.
-Fixpoint locks_ok (es : list event) (ks : list nat) (t : nat) (res : list (list Z)) (fins : list bool) : bool :=
+Fixpoint locks_ok (own : list nat) (es : list event) (ks : list nat) (t : nat) (res : list (list Z)) (fins : list bool) : bool :=
   match res, fins with
   | rs :: res', f :: fins' =>
-    (if Nat.even t then forallb (fun k => holds_none t (evs_of t k es ks)) (seq 0 (length rs))
-     else negb f || holds_none t (evs_of_thread t es))
-    && locks_ok es ks (S t) res' fins'
+    (if Nat.even t then forallb (fun k => holds_none own t (evs_of t k es ks)) (seq 0 (length rs))
+     else negb f || holds_none own t (evs_of_thread t es))
+    && locks_ok own es ks (S t) res' fins'
   | _, _ => true
   end.
 
 (* nothing that could be serialised is lost on the way to the pipe: at a quiet end (every main
-   thread finished, every started feeder asleep on the notification semaphore of its _notempty
-   or never started with nothing accepted) the messages process p's feeder wrote are, in order,
-   exactly the picklable messages of p's puts that returned None *)
+   thread finished, every started feeder asleep on the notification semaphore of its process's
+   _notempty or never started) the messages the feeder thread(s) of a process wrote contain, for
+   each of its main threads, exactly the picklable messages of that thread's puts that returned
+   None, in that thread's order; and nothing else *)
 Fixpoint accepted (sc : list qcall) (rs : list Z) : list Z :=
   match sc, rs with
   | (id, _, _, m) :: sc', v :: rs' =>
@@ -185,20 +195,48 @@ Fixpoint accepted (sc : list qcall) (rs : list Z) : list Z :=
 Definition sent_by (t : nat) (es : list event) : list Z :=
   map (fun e => let '(_, _, _, r) := e in r)
       (filter (fun e => let '(t', o, op, _) := e in Nat.eqb t' t && Nat.eqb o PIPE && (op =? 3)) es).
-Fixpoint delivered_ok (es : list event) (p : nat) (scs : list (list qcall)) (res : list (list Z)) (pend : list Z) : bool :=
+(* written to the pipe by the feeder thread(s) of process p, in the order of the writes *)
+Definition sent_by_proc (own : list nat) (p : nat) (es : list event) : list Z :=
+  map (fun e => let '(_, _, _, r) := e in r)
+      (filter (fun e => let '(t', o, op, _) := e in
+                        Nat.odd t' && Nat.eqb (proc_of own t') p && Nat.eqb o PIPE && (op =? 3)) es).
+(* accepted by the puts of all main threads of process p *)
+Definition accepted_proc (own : list nat) (p : nat) (scripts : list (list qcall)) (res : list (list Z)) : list Z :=
+  flat_map (fun q => if Nat.eqb (owner own q) p then accepted (nth q scripts []) (nth (2 * q) res []) else [])
+           (seq 0 (length scripts)).
+(* some feeder slot of process p is asleep on the notification semaphore of p's _notempty *)
+Definition feeder_asleep (own : list nat) (p : nat) (pend : list Z) : bool :=
+  existsb (fun q => Nat.eqb (owner own q) p && (nth (2 * q + 1) pend (-1) =? Z.of_nat (9 + 2 * p)))
+          (seq 0 (Nat.div (length pend) 2)).
+Fixpoint delivered_ok (own : list nat) (scripts : list (list qcall)) (allres : list (list Z)) (allpend : list Z)
+         (es : list event) (q : nat) (scs : list (list qcall)) (res : list (list Z)) (pend : list Z) : bool :=
   match scs, res, pend with
   | sc :: scs', rm :: _rf :: res', _pm :: pf :: pend' =>
-    ((pf =? Z.of_nat (9 + 2 * p)) || (pf =? -1) && match accepted sc rm with [] => true | _ => false end)
-    && list_eqb Z.eqb (sent_by (2 * p + 1) es) (filter picklable (accepted sc rm))
-    && delivered_ok es (S p) scs' res' pend'
+    let p := owner own q in
+    let acc := accepted sc rm in
+    ((pf =? Z.of_nat (9 + 2 * p)) || (pf =? -1))
+    && (match acc with [] => true | _ => feeder_asleep own p allpend end)
+    && list_eqb Z.eqb (filter (fun m => zmem m acc) (sent_by_proc own p es)) (filter picklable acc)
+    && forallb (fun m => zmem m (accepted_proc own p scripts allres)) (sent_by_proc own p es)
+    && delivered_ok own scripts allres allpend es (S q) scs' res' pend'
   | _, _, _ => true
   end.
-Definition quiet_feeders (p0 : nat) (pend : list Z) : bool :=
-  (fix go (p : nat) (l : list Z) : bool :=
+Definition quiet_feeders (own : list nat) (p0 : nat) (pend : list Z) : bool :=
+  (fix go (q : nat) (l : list Z) : bool :=
      match l with
-     | _pm :: pf :: l' => ((pf =? Z.of_nat (9 + 2 * p)) || (pf =? -1)) && go (S p) l'
+     | _pm :: pf :: l' => ((pf =? Z.of_nat (9 + 2 * owner own q)) || (pf =? -1)) && go (S q) l'
      | _ => true
      end) p0 pend.
+
+(* Queue._start_thread: at most one feeder thread is ever started for the queue object of one
+   process (two feeders draining one buffer break the order of a producer's items), and its
+   buffer.clear() never drops an item (an accepted item that vanishes, with its capacity token) *)
+Definition is_start (e : event) : bool := let '(_, o, op, _) := e in Nat.eqb o THREAD && (op =? 7).
+Definition one_feeder_ok (own : list nat) (n : nat) (es : list event) : bool :=
+  forallb (fun p => Nat.leb (length (filter (fun e => is_start e && Nat.eqb (proc_of own (let '(t, _, _, _) := e in t)) p) es)) 1)
+          (seq 0 n).
+Definition clear_ok (es : list event) : bool :=
+  forallb (fun e => negb (is_start e) || (let '(_, _, _, r) := e in r =? 0)) es.
 
 (* an item that is in the pipe is not kept from a get that is waiting for one: at a deadlock
    end (nothing can move any more) with a message in the pipe no main thread is inside get *)
@@ -211,12 +249,13 @@ Fixpoint get_stuck_ok (scs : list (list qcall)) (res : list (list Z)) (fins : li
   end.
 
 (* no lost feeder wake-up: at a deadlock end a process with a non-empty buffer does not have
-   its feeder asleep on the notification semaphore of _notempty *)
-Fixpoint feeders_ok (p : nat) (bufs : list (list Z)) (pend : list Z) : bool :=
-  match bufs, pend with
-  | b :: bufs', _pm :: pf :: pend' =>
-    (match b with [] => true | _ => negb (pf =? Z.of_nat (9 + 2 * p)) end) && feeders_ok (S p) bufs' pend'
-  | _, _ => true
+   a feeder slot asleep on the notification semaphore of its _notempty *)
+Fixpoint feeders_ok (own : list nat) (q : nat) (bufs : list (list Z)) (pend : list Z) : bool :=
+  match pend with
+  | _pm :: pf :: pend' =>
+    let p := owner own q in
+    (match nth p bufs [] with [] => true | _ => negb (pf =? Z.of_nat (9 + 2 * p)) end) && feeders_ok own (S q) bufs pend'
+  | _ => true
   end.
 
 (* join is exact: a join that returned saw the number of unfinished tasks at zero at some
@@ -226,13 +265,13 @@ Fixpoint feeders_ok (p : nat) (bufs : list (list Z)) (pend : list Z) : bool :=
    visible to the feeder and hence to consumers; in the pinned code the counter was incremented
    before that release), -1 when a task_done obtains the count.  In the pinned code
    specification count <= real count at every moment, so the monitors below cannot fire. *)
-Fixpoint unfinished_after (scripts : list (list qcall)) (c : Z) (es : list event) (ks : list nat) : list Z :=
+Fixpoint unfinished_after (own : list nat) (scripts : list (list qcall)) (c : Z) (es : list event) (ks : list nat) : list Z :=
   match es, ks with
   | (t, o, op, r) :: es', k :: ks' =>
     let '(id, _, _, _) := qcall_at scripts t k in
-    let c' := if Nat.even t && Nat.eqb id 3 && Nat.eqb o (8 + 2 * Nat.div t 2) && (op =? 1) && (r =? 0) then c + 1
+    let c' := if Nat.even t && Nat.eqb id 3 && Nat.eqb o (8 + 2 * proc_of own t) && (op =? 1) && (r =? 0) then c + 1
               else if Nat.even t && Nat.eqb id 4 && Nat.eqb o 3 && (op =? 0) && (r =? 1) then c - 1 else c in
-    c' :: unfinished_after scripts c' es' ks'
+    c' :: unfinished_after own scripts c' es' ks'
   | _, _ => []
   end.
 
@@ -255,27 +294,27 @@ Fixpoint idxs_of (t k : nat) (es : list event) (ks : list nat) (j : nat) : list 
   end.
 
 (* counts.(j) = number of unfinished tasks before event j (counts.(n) = after the last one) *)
-Definition join_window_ok (scripts : list (list qcall)) (t k : nat) (es : list event) (ks : list nat) : bool :=
-  let counts := 0 :: unfinished_after scripts 0 es ks in
+Definition join_window_ok (own : list nat) (scripts : list (list qcall)) (t k : nat) (es : list event) (ks : list nat) : bool :=
+  let counts := 0 :: unfinished_after own scripts 0 es ks in
   match idxs_of t k es ks 0 with
   | [] => false
   | a :: rest => let b := last rest a in
                  existsb (fun j => nth j counts 1 =? 0) (seq a (b + 2 - a))
   end.
 
-Fixpoint joins_ok (scripts : list (list qcall)) (es : list event) (ks : list nat) (t k : nat) (sc : list qcall) (rs : list Z) : bool :=
+Fixpoint joins_ok (own : list nat) (scripts : list (list qcall)) (es : list event) (ks : list nat) (t k : nat) (sc : list qcall) (rs : list Z) : bool :=
   match sc, rs with
   | (id, _, _, _) :: sc', v :: rs' =>
     (if Nat.eqb id 5 && (v =? V_NONE)
-     then join_window_ok scripts t k es ks else true)
-    && joins_ok scripts es ks t (S k) sc' rs'
+     then join_window_ok own scripts t k es ks else true)
+    && joins_ok own scripts es ks t (S k) sc' rs'
   | _, _ => true
   end.
 
-Fixpoint all_joins_ok (scripts : list (list qcall)) (es : list event) (ks : list nat) (p : nat) (scs : list (list qcall))
+Fixpoint all_joins_ok (own : list nat) (scripts : list (list qcall)) (es : list event) (ks : list nat) (p : nat) (scs : list (list qcall))
          (res : list (list Z)) : bool :=
   match scs, res with
-  | sc :: scs', rm :: _rf :: res' => joins_ok scripts es ks (2 * p) 0 sc rm && all_joins_ok scripts es ks (S p) scs' res'
+  | sc :: scs', rm :: _rf :: res' => joins_ok own scripts es ks (2 * p) 0 sc rm && all_joins_ok own scripts es ks (S p) scs' res'
   | _, _ => true
   end.
 
@@ -291,24 +330,25 @@ Fixpoint join_stuck_ok (cnt : Z) (scs : list (list qcall)) (res : list (list Z))
   | _, _, _ => true
   end.
 
-Definition qmonitors (kind maxsize : Z) (scripts : list (list qcall)) (o : qobserved) : bool :=
+Definition qmonitors (kind maxsize : Z) (scripts : list (list qcall)) (own : list nat) (o : qobserved) : bool :=
   let '(es, ks, res, fins, vals, pipe, bufs, pend, endk) := o in
   all_calls_ok scripts es ks 0 scripts res && traffic_ok scripts es pipe
-  && capacity_ok kind maxsize fins vals pipe bufs pend
+  && capacity_ok kind maxsize own fins vals pipe bufs pend
   && forallb (fun v => 0 <=? v) vals
-  && ((endk =? 2) || feeders_ok 0 bufs pend)
-  && all_joins_ok scripts es ks 0 scripts res
-  && taskdone_ok scripts es ks (0 :: unfinished_after scripts 0 es ks)
-  && (negb (endk =? 1) || join_stuck_ok (last (unfinished_after scripts 0 es ks) 0) scripts res fins)
-  && locks_ok es ks 0 res fins
+  && ((endk =? 2) || feeders_ok own 0 bufs pend)
+  && all_joins_ok own scripts es ks 0 scripts res
+  && taskdone_ok scripts es ks (0 :: unfinished_after own scripts 0 es ks)
+  && (negb (endk =? 1) || join_stuck_ok (last (unfinished_after own scripts 0 es ks) 0) scripts res fins)
+  && locks_ok own es ks 0 res fins
   && (negb (endk =? 1) || match pipe with [] => true | _ => get_stuck_ok scripts res fins end)
-  && (if (kind <? 2) && negb (endk =? 2) && forallb (fun b => b) (evens fins) && quiet_feeders 0 pend
+  && (if (kind <? 2) && negb (endk =? 2) && forallb (fun b => b) (evens fins) && quiet_feeders own 0 pend
          && negb (feeder_ended fins)
-      then delivered_ok es 0 scripts res pend else true).
+      then delivered_ok own scripts res pend es 0 scripts res pend else true)
+  && one_feeder_ok own (length scripts) es && clear_ok es.
 
 (* ------------------------------------------------------------------ correspondence *)
-Definition qmodel_obs (maxsize : Z) (scripts : list (list qcall)) (sched : list (nat * bool)) :=
-  let '(g, es, ok) := qrun code (qinit maxsize scripts) sched in
+Definition qmodel_obs (maxsize : Z) (scripts : list (list qcall)) (own : list nat) (sched : list (nat * bool)) :=
+  let '(g, es, ok) := qrun code (qinit_own maxsize own scripts) sched in
   (es, map (fun t => rev (map snd (qresults t))) (qthr g), map (fun t => qfin t || qexited code t) (qthr g),
    map val (qsems g),
    pipe g, map buf (procs g), ok).
@@ -323,13 +363,13 @@ Definition fins_eqb (impl model : list bool) : bool :=
    fails on the implementation's trace, or the same history gave different call results;
    1 = other difference *)
 Definition check_case (c : qcase) : Z :=
-  let '(kind, maxsize, scripts, sched, o) := c in
+  let '(kind, maxsize, scripts, own, sched, o) := c in
   let '(es, ks, res, fins, vals, pp, bufs, pend, endk) := o in
-  let '(mes, mres, mfins, mvals, mpipe, mbufs, ok) := qmodel_obs maxsize scripts sched in
+  let '(mes, mres, mfins, mvals, mpipe, mbufs, ok) := qmodel_obs maxsize scripts own sched in
   let same_ev := list_eqb event_eqb es mes && ok in
   let same_res := list_eqb (list_eqb Z.eqb) res mres in
   if feeder_ended fins then 3
-  else if negb (qmonitors kind maxsize scripts o) then 2
+  else if negb (qmonitors kind maxsize scripts own o) then 2
   else if same_ev && negb same_res then 2
   else if same_ev && same_res && fins_eqb fins mfins && list_eqb Z.eqb vals mvals
           && list_eqb Z.eqb pp mpipe && list_eqb (list_eqb Z.eqb) bufs mbufs
